@@ -21,7 +21,7 @@ namespace {
 const std::vector<std::string> &callMenu() {
     static std::vector<std::string> v{"evaluate", "evaluateBatch", "evaluateFast", "interpolationWeights", "quadratureWeights", "differentiationWeights", "integrate", "differentiate",
                                       "hierarchicalFunctions", "sparseHierarchicalFunctions", "hierarchicalSupport", "integrateHierarchical", "coefficients", "points", "values",
-                                      "polynomialSpace", "anisotropicCoefficients", "writeBinary", "writeAscii", "copy", "observe", "meta", "evaluateBatchFloat", "printStats", "candidatesOfCopy"};
+                                      "polynomialSpace", "anisotropicCoefficients", "writeBinary", "writeAscii", "copy", "observe", "meta", "evaluateBatchFloat", "printStats", "candidatesOfCopy", "sparseStaticPair"};
     return v;
 }
 
@@ -57,6 +57,11 @@ CallResult doCall(const TasmanianSparseGrid &g, const std::string &name, const s
         else if (name == "sparseHierarchicalFunctions") {
             if (g.isGlobal() || g.isSequence() || g.isFourier()) { std::vector<double> y; g.evaluateHierarchicalFunctions(x, y); r.v = y; }
             else { std::vector<int> pntr, indx; std::vector<double> vals; g.evaluateSparseHierarchicalFunctions(x, pntr, indx, vals); r.v = vals; for (int p : pntr) r.v.push_back(p); for (int i : indx) r.v.push_back(i); }
+        }
+        else if (name == "sparseStaticPair") { // the two-stage interface used by the C wrapper: count the non-zeros, then fill caller-provided arrays
+            if (!g.isLocalPolynomial()) r.s = "skipped";
+            else { int nxp = (int)(x.size() / (size_t)d); int nz = g.evaluateSparseHierarchicalFunctionsGetNZ(x.data(), nxp); std::vector<int> sp((size_t)nxp + 1), si((size_t)nz); std::vector<double> sv((size_t)nz);
+                   g.evaluateSparseHierarchicalFunctionsStatic(x.data(), nxp, sp.data(), si.data(), sv.data()); r.v = sv; for (int q : sp) r.v.push_back(q); for (int q : si) r.v.push_back(q); }
         }
         else if (name == "hierarchicalSupport") r.v = g.getHierarchicalSupport();
         else if (name == "integrateHierarchical") { std::vector<double> q((size_t)g.getNumPoints()); if (g.getNumPoints() > 0) g.integrateHierarchicalFunctions(q.data()); r.v = q; }
